@@ -643,9 +643,9 @@ static Seg4 genSeg(Rng& r, Out& out) {
         if (r.chance(25)) {
             // nearly parallel long segments crossing properly at a lattice point: directions (n, n-1) and (n-1, n-2) have
             // cross product -1 grid unit^2 while the ordinate differences reach 2^25: the worst conditioning the grid allows
-            ll n = r.chance(50) ? randIn(r, 3, 1000) : (r.chance(50) ? randIn(r, 1000, 1LL << 20) : (GRID / 2) - randIn(r, 0, 64));
+            ll n = r.chance(50) ? randIn(r, 3, 1000) : (r.chance(50) ? randIn(r, 1000, 1LL << 20) : (r.chance(50) ? (GRID / 2) - randIn(r, 0, 64) : GRID - 9 - randIn(r, 0, 64)));   // the longest the grid allows: ordinate differences 2^26
             IP d1{n, n - 1}, d2{n - 1, n - 2};
-            if (r.chance(30)) { ll m = randIn(r, 2, 9); d2 = IP{m * n - 1, m * (n - 1) - 1}; if (std::max(d2.x, d2.y) > GRID / 2) d2 = IP{n - 1, n - 2}; }   // cross = n - (n-1)... still tiny
+            if (r.chance(30)) { ll m = randIn(r, 2, 9); d2 = IP{m * n - 1, m * (n - 1) - 1}; if (std::max(d2.x, d2.y) > GRID - 9) d2 = IP{n - 1, n - 2}; }   // cross = n - (n-1)... still tiny
             if (r.chance(50)) { std::swap(d1.x, d1.y); std::swap(d2.x, d2.y); }
             if (r.chance(50)) { d1.x = -d1.x; d2.x = -d2.x; }
             ll i1 = 1, j1 = 1, i2 = 1, j2 = 1;
